@@ -67,278 +67,7 @@ pub fn is_edge_feasible(&self, parent_idx: TreeIndex, node_idx: TreeIndex) -> (r
     ensures parent == 0 ==> r
 //@end
 
-// ---------------------------------------------------------------- specification
-#[verifier::opaque]
-pub open spec fn terminals_ok<const K: usize>(a: AArena<K>, ts: Seq<usize>, dl: usize) -> bool {
-    &&& forall|j: int| 0 <= j < ts.len() ==> a.dom().contains(#[trigger] ts[j]) && a[ts[j]].isleaf && a[ts[j]].value.aff.mat.nrows() == dl
-    &&& forall|j1: int, j2: int| 0 <= j1 < j2 < ts.len() ==> ts[j1] != ts[j2]
-}
-// ghost bookkeeping while one terminal t is expanded: kind maps every node created so far (and still present) to the lhs node it copies,
-// pend are the copies waiting on the work stack, cur is the copy whose children are being created
-#[verifier::opaque]
-pub open spec fn pr_inv<const K: usize>(al: AArena<K>, a: AArena<K>, a_s: AArena<K>, kind: Map<usize, usize>, pend: Set<usize>, cur: Option<usize>, t: usize, in_dim: usize) -> bool {
-    &&& forall|n: usize| #[trigger] kind.dom().contains(n) ==> a.dom().contains(n) && al.dom().contains(kind[n]) && (n == t || !a_s.dom().contains(n))
-            && a[n].value.aff.ok() && a[n].value.aff.mat.ncols() == in_dim && a[n].value.aff.mat.nrows() == al[kind[n]].value.aff.mat.nrows()
-            && (!a[n].isleaf ==> !al[kind[n]].isleaf)
-    &&& forall|n: usize| #[trigger] pend.contains(n) ==> kind.dom().contains(n) && a[n].isleaf && no_kids(a[n])
-    &&& forall|n: usize| #[trigger] kind.dom().contains(n) && !pend.contains(n) && Some(n) != cur ==> a[n].isleaf == al[kind[n]].isleaf
-    &&& forall|i: usize| #[trigger] a.dom().contains(i) ==> kind.dom().contains(i) || (a_s.dom().contains(i) && i != t)
-    &&& forall|i: usize| #[trigger] a_s.dom().contains(i) && i != t ==> a.dom().contains(i) && !kind.dom().contains(i) && a[i].value == a_s[i].value
-            && a[i].isleaf == a_s[i].isleaf && (a_s[i].isleaf ==> a[i] == a_s[i])
-}
-#[verifier::opaque]
-pub open spec fn pr_stack(kind: Map<usize, usize>, pend: Set<usize>, stack: Seq<(usize, usize)>) -> bool {
-    &&& forall|j: int| 0 <= j < stack.len() ==> pend.contains((#[trigger] stack[j]).1) && kind[stack[j].1] == stack[j].0
-    &&& forall|j1: int, j2: int| 0 <= j1 < j2 < stack.len() ==> (#[trigger] stack[j1]).1 != (#[trigger] stack[j2]).1
-    &&& forall|n: usize| #[trigger] pend.contains(n) ==> exists|j: int| 0 <= j < stack.len() && (#[trigger] stack[j]).1 == n
-}
-// state between terminals: the listed terminals from position t on are untouched; every terminal of the tree is such a one, an unlisted old terminal,
-// or has the output dimension of a terminal of the left operand; old nodes that are not processed terminals keep value and kind
-#[verifier::opaque]
-pub open spec fn pr_outer<const K: usize>(al: AArena<K>, a0: AArena<K>, a: AArena<K>, ts: Seq<usize>, t: int) -> bool {
-    &&& forall|j: int| t <= j < ts.len() ==> a.dom().contains(#[trigger] ts[j]) && a[ts[j]] == a0[ts[j]]
-    &&& forall|i: usize| a.dom().contains(i) && #[trigger] a[i].isleaf ==>
-            (a0.dom().contains(i) && a0[i].isleaf && a[i] == a0[i] && (forall|j: int| 0 <= j < t && j < ts.len() ==> ts[j] != i))
-            || (exists|p: usize| al.dom().contains(p) && (#[trigger] al[p]).isleaf && a[i].value.aff.mat.nrows() == al[p].value.aff.mat.nrows())
-}
-
-// ---------------------------------------------------------------- lemmas
-pub proof fn lemma_pr_outer_init<const K: usize>(al: AArena<K>, a0: AArena<K>, ts: Seq<usize>, dl: usize)
-    requires terminals_ok(a0, ts, dl)
-    ensures pr_outer(al, a0, a0, ts, 0)
-{
-    reveal(pr_outer); reveal(terminals_ok);
-}
-
-pub proof fn lemma_pr_pick<const K: usize>(al: AArena<K>, a0: AArena<K>, a: AArena<K>, ts: Seq<usize>, t: int, dl: usize, in_dim: usize)
-    requires terminals_ok(a0, ts, dl), pr_outer(al, a0, a, ts, t), 0 <= t < ts.len(), leaf_ok(a), aff_shape_ok(a, in_dim)
-    ensures a.dom().contains(ts[t]), a[ts[t]] == a0[ts[t]], a[ts[t]].isleaf, no_kids(a[ts[t]]),
-        a[ts[t]].value.aff.mat.nrows() == dl, a[ts[t]].value.aff.ok(), a[ts[t]].value.aff.mat.ncols() == in_dim,
-{
-    reveal(terminals_ok); reveal(pr_outer);
-    assert(a[ts[t]] == a0[ts[t]]);
-}
-
-// the terminal received the composed root function
-pub proof fn lemma_pr_start<const K: usize>(al: AArena<K>, a_s: AArena<K>, a: AArena<K>, rl: usize, t: usize, in_dim: usize)
-    requires al.dom().contains(rl), a_s.dom().contains(t), a_s[t].isleaf, no_kids(a_s[t]), aff_shape_ok(a_s, in_dim),
-        same_shape(a_s, a), forall|i: usize| a_s.dom().contains(i) && i != t ==> a[i] == a_s[i],
-        a[t].value.aff.ok(), a[t].value.aff.mat.ncols() == in_dim, a[t].value.aff.mat.nrows() == al[rl].value.aff.mat.nrows(),
-    ensures pr_inv(al, a, a_s, Map::<usize, usize>::empty().insert(t, rl), set![t], None, t, in_dim),
-        pr_stack(Map::<usize, usize>::empty().insert(t, rl), set![t], seq![(rl, t)]),
-{
-    reveal(pr_inv); reveal(pr_stack);
-    assert(a[t].isleaf && a[t].children == a_s[t].children);
-    assert(no_kids(a[t]));
-    let stk = seq![(rl, t)];
-    assert forall|n: usize| #[trigger] set![t].contains(n) implies exists|j: int| 0 <= j < stk.len() && (#[trigger] stk[j]).1 == n by { assert(stk[0].1 == t); }
-}
-
-pub proof fn lemma_pr_pop<const K: usize>(al: AArena<K>, a: AArena<K>, a_s: AArena<K>, kind: Map<usize, usize>, pend: Set<usize>, t: usize, in_dim: usize,
-    rest: Seq<(usize, usize)>, it: (usize, usize))
-    requires pr_inv(al, a, a_s, kind, pend, None, t, in_dim),
-        exists|s0: Seq<(usize, usize)>| #[trigger] pr_stack(kind, pend, s0) && s0.len() > 0 && s0.last() == it && s0.drop_last() == rest,
-    ensures pr_inv(al, a, a_s, kind, pend.remove(it.1), Some(it.1), t, in_dim), pr_stack(kind, pend.remove(it.1), rest),
-        kind.dom().contains(it.1), kind[it.1] == it.0, al.dom().contains(it.0), a.dom().contains(it.1), a[it.1].isleaf, no_kids(a[it.1]),
-        a[it.1].value.aff.mat.nrows() == al[it.0].value.aff.mat.nrows(), !pend.remove(it.1).contains(it.1),
-{
-    reveal(pr_inv); reveal(pr_stack);
-    let s0 = choose|s0: Seq<(usize, usize)>| #[trigger] pr_stack(kind, pend, s0) && s0.len() > 0 && s0.last() == it && s0.drop_last() == rest;
-    assert(s0[s0.len() - 1] == it);
-    let pend1 = pend.remove(it.1);
-    assert forall|j: int| 0 <= j < rest.len() implies pend1.contains((#[trigger] rest[j]).1) && kind[rest[j].1] == rest[j].0 by { assert(rest[j] == s0[j]); }
-    assert forall|j1: int, j2: int| 0 <= j1 < j2 < rest.len() implies (#[trigger] rest[j1]).1 != (#[trigger] rest[j2]).1 by { assert(rest[j1] == s0[j1] && rest[j2] == s0[j2]); }
-    assert forall|n: usize| #[trigger] pend1.contains(n) implies exists|j: int| 0 <= j < rest.len() && (#[trigger] rest[j]).1 == n by {
-        let j = choose|j: int| 0 <= j < s0.len() && (#[trigger] s0[j]).1 == n;
-        assert(j < s0.len() - 1);
-        assert(rest[j] == s0[j]);
-    }
-}
-
-// a child copy c of lhs node c0 was attached below cur and is kept
-pub proof fn lemma_pr_keep<const K: usize>(al: AArena<K>, a0: AArena<K>, a1: AArena<K>, a_s: AArena<K>, kind: Map<usize, usize>, pend: Set<usize>, t: usize, in_dim: usize,
-    st: Seq<(usize, usize)>, p1: usize, label: usize, c0: usize, c: usize)
-    requires pr_inv(al, a0, a_s, kind, pend, Some(p1), t, in_dim), pr_stack(kind, pend, st), kind.dom().contains(p1), !pend.contains(p1),
-        al.dom().contains(c0), !al[kind[p1]].isleaf,
-        child_added(a0, a1, p1, label, c), a1[p1].value == a0[p1].value,
-        a1[c].value.aff.ok(), a1[c].value.aff.mat.ncols() == in_dim, a1[c].value.aff.mat.nrows() == al[c0].value.aff.mat.nrows(),
-    ensures pr_inv(al, a1, a_s, kind.insert(c, c0), pend.insert(c), Some(p1), t, in_dim), pr_stack(kind.insert(c, c0), pend.insert(c), st.push((c0, c))),
-{
-    reveal(pr_inv); reveal(pr_stack);
-    let kind1 = kind.insert(c, c0);
-    let pend1 = pend.insert(c);
-    let st1 = st.push((c0, c));
-    assert(c != p1 && !a0.dom().contains(c));
-    assert(!kind.dom().contains(c)) by { if kind.dom().contains(c) { assert(a0.dom().contains(c)); } }
-    assert(!a_s.dom().contains(c) || c == t) by { if a_s.dom().contains(c) && c != t { assert(a0.dom().contains(c)); } }
-    assert forall|i: usize| a0.dom().contains(i) && i != p1 implies a1[i] == a0[i] by {}
-    assert forall|n: usize| #[trigger] kind1.dom().contains(n) implies a1.dom().contains(n) && al.dom().contains(kind1[n]) && (n == t || !a_s.dom().contains(n))
-            && a1[n].value.aff.ok() && a1[n].value.aff.mat.ncols() == in_dim && a1[n].value.aff.mat.nrows() == al[kind1[n]].value.aff.mat.nrows()
-            && (!a1[n].isleaf ==> !al[kind1[n]].isleaf) by {
-        if n != c { assert(kind.dom().contains(n)); }
-    }
-    assert forall|n: usize| #[trigger] pend1.contains(n) implies kind1.dom().contains(n) && a1[n].isleaf && no_kids(a1[n]) by {
-        if n != c { assert(pend.contains(n)); assert(n != p1); }
-    }
-    assert forall|n: usize| #[trigger] kind1.dom().contains(n) && !pend1.contains(n) && Some(n) != Some(p1) implies a1[n].isleaf == al[kind1[n]].isleaf by {
-        assert(kind.dom().contains(n));
-    }
-    assert forall|i: usize| #[trigger] a1.dom().contains(i) implies kind1.dom().contains(i) || (a_s.dom().contains(i) && i != t) by {
-        if i != c { assert(a0.dom().contains(i)); }
-    }
-    assert forall|i: usize| #[trigger] a_s.dom().contains(i) && i != t implies a1.dom().contains(i) && !kind1.dom().contains(i) && a1[i].value == a_s[i].value
-            && a1[i].isleaf == a_s[i].isleaf && (a_s[i].isleaf ==> a1[i] == a_s[i]) by {
-        assert(a0.dom().contains(i) && !kind.dom().contains(i));
-        assert(i != p1);
-    }
-    assert forall|j: int| 0 <= j < st1.len() implies pend1.contains((#[trigger] st1[j]).1) && kind1[st1[j].1] == st1[j].0 by {
-        if j < st.len() { assert(st1[j] == st[j]); assert(pend.contains(st[j].1)); assert(kind.dom().contains(st[j].1)); }
-    }
-    assert forall|j1: int, j2: int| 0 <= j1 < j2 < st1.len() implies (#[trigger] st1[j1]).1 != (#[trigger] st1[j2]).1 by {
-        assert(st1[j1] == st[j1]); assert(pend.contains(st[j1].1)); assert(kind.dom().contains(st[j1].1));
-        if j2 < st.len() { assert(st1[j2] == st[j2]); }
-    }
-    assert forall|n: usize| #[trigger] pend1.contains(n) implies exists|j: int| 0 <= j < st1.len() && (#[trigger] st1[j]).1 == n by {
-        if n == c { assert(st1[st.len() as int].1 == c); }
-        else { assert(pend.contains(n)); let j = choose|j: int| 0 <= j < st.len() && (#[trigger] st[j]).1 == n; assert(st1[j] == st[j]); }
-    }
-}
-
-// a child that was attached and removed again leaves the arena as it was
-pub proof fn lemma_prune_roundtrip<N, const K: usize>(a0: Arena<N, K>, a1: Arena<N, K>, a2: Arena<N, K>, root: Option<usize>, p: usize, label: usize, c: usize)
-    requires wf_at(a0, root), wf_at(a1, root), child_added(a0, a1, p, label, c), a1[p].value == a0[p].value, child_removed(a1, a2, p, label)
-    ensures a2 =~= a0
-{
-    assert(a1[p].children[label as int] == Some(c)) by { assert(a1[p].children@[label as int] == Some(c)); }
-    // c is a leaf of a1: nothing hangs below it
-    assert forall|i: usize| !desc(a1, c, i) by { if desc(a1, c, i) { lemma_desc_has_kid(a1, c, i); } }
-    assert(a2.dom() =~= a0.dom());
-    assert(a2[p].children@ =~= a0[p].children@);
-    assert(a2[p].children == a0[p].children);
-    lemma_count_zero_no_kids(a0[p], 0);
-    assert(no_kids(a2[p]) == no_kids(a0[p])) by {
-        assert forall|l: int| 0 <= l < K implies a2[p].children[l] == a0[p].children[l] by {}
-    }
-    assert(a2[p].parent == a0[p].parent);
-    assert(a2[p].value == a0[p].value);
-    assert(a0[p].isleaf == no_kids(a0[p]));
-    assert(a2[p].isleaf == a0[p].isleaf);
-    assert(a2[p] == a0[p]);
-    assert forall|i: usize| a0.dom().contains(i) implies a2[i] == a0[i] by {
-        if i != p { assert(a1[i] == a0[i]); assert(a2.dom().contains(i)); assert(a2[i] == a1[i]); }
-    }
-}
-
-// all children of cur handled, no forwarding: cur is done
-pub proof fn lemma_pr_done<const K: usize>(al: AArena<K>, a: AArena<K>, a_s: AArena<K>, kind: Map<usize, usize>, pend: Set<usize>, t: usize, in_dim: usize, p1: usize)
-    requires pr_inv(al, a, a_s, kind, pend, Some(p1), t, in_dim), kind.dom().contains(p1), a[p1].isleaf == al[kind[p1]].isleaf
-    ensures pr_inv(al, a, a_s, kind, pend, None, t, in_dim)
-{
-    reveal(pr_inv);
-}
-
-// forwarding: cur has exactly one child and is spliced out
-pub proof fn lemma_pr_merge<const K: usize>(al: AArena<K>, a0: AArena<K>, a1: AArena<K>, a_s: AArena<K>, kind: Map<usize, usize>, pend: Set<usize>, t: usize, in_dim: usize,
-    st: Seq<(usize, usize)>, p1: usize, label: usize, root: Option<usize>)
-    requires pr_inv(al, a0, a_s, kind, pend, Some(p1), t, in_dim), pr_stack(kind, pend, st), kind.dom().contains(p1), !pend.contains(p1),
-        wf_at(a0, root), merge_post(a0, a1, p1, label, false), a0[p1].children[label as int] is Some, pend.contains(a0[p1].children[label as int].unwrap()),
-    ensures pr_inv(al, a1, a_s, kind.remove(p1), pend, None, t, in_dim), pr_stack(kind.remove(p1), pend, st),
-{
-    reveal(pr_inv); reveal(pr_stack);
-    let gl = choose|gl: int| merged(a0, a1, p1, label, gl);
-    let c = a0[p1].children[label as int].unwrap();
-    let g = a0[p1].parent.unwrap();
-    let kind1 = kind.remove(p1);
-    assert(a0.dom().contains(g) && a0.dom().contains(c));
-    assert(a0[c].parent == Some(p1));
-    let d = choose|d: Map<usize, nat>| ranked(a0, d);
-    assert(d[g] < d[p1] && d[p1] < d[c]);
-    assert(g != p1 && c != p1 && g != c);
-    assert forall|n: usize| #[trigger] kind1.dom().contains(n) implies a1.dom().contains(n) && al.dom().contains(kind1[n]) && (n == t || !a_s.dom().contains(n))
-            && a1[n].value.aff.ok() && a1[n].value.aff.mat.ncols() == in_dim && a1[n].value.aff.mat.nrows() == al[kind1[n]].value.aff.mat.nrows()
-            && (!a1[n].isleaf ==> !al[kind1[n]].isleaf) by {
-        assert(kind.dom().contains(n));
-        if n != g && n != c { assert(a1[n] == a0[n]); }
-    }
-    assert forall|n: usize| #[trigger] pend.contains(n) implies kind1.dom().contains(n) && a1[n].isleaf && no_kids(a1[n]) by {
-        assert(n != p1);
-        assert(kind.dom().contains(n));
-        // a pending copy has no children, so it is not the grandparent
-        assert(n != g) by { if n == g { assert(a0[g].children[gl].is_some()); } }
-        if n != c { assert(a1[n] == a0[n]); }
-    }
-    assert forall|n: usize| #[trigger] kind1.dom().contains(n) && !pend.contains(n) implies a1[n].isleaf == al[kind1[n]].isleaf by {
-        assert(kind.dom().contains(n) && n != p1);
-        if n != g && n != c { assert(a1[n] == a0[n]); }
-    }
-    assert forall|i: usize| #[trigger] a1.dom().contains(i) implies kind1.dom().contains(i) || (a_s.dom().contains(i) && i != t) by {
-        assert(a0.dom().contains(i) && i != p1);
-    }
-    assert forall|i: usize| #[trigger] a_s.dom().contains(i) && i != t implies a1.dom().contains(i) && !kind1.dom().contains(i) && a1[i].value == a_s[i].value
-            && a1[i].isleaf == a_s[i].isleaf && (a_s[i].isleaf ==> a1[i] == a_s[i]) by {
-        assert(a0.dom().contains(i) && !kind.dom().contains(i));
-        assert(i != p1 && i != c);
-        if i == g { assert(!a0[g].isleaf) by { if a0[g].isleaf { assert(no_kids(a0[g])); assert(a0[g].children[gl].is_some()); } } }
-        else { assert(a1[i] == a0[i]); }
-    }
-    assert forall|j: int| 0 <= j < st.len() implies pend.contains((#[trigger] st[j]).1) && kind1[st[j].1] == st[j].0 by { assert(st[j].1 != p1); }
-}
-
-// the copy below terminal number t - 1 is finished
-pub proof fn lemma_pr_terminal_done<const K: usize>(al: AArena<K>, a0: AArena<K>, a_s: AArena<K>, a: AArena<K>, ts: Seq<usize>, t: int, dl: usize,
-    kind: Map<usize, usize>, pend: Set<usize>, in_dim: usize)
-    requires 0 < t <= ts.len(), terminals_ok(a0, ts, dl), pr_outer(al, a0, a_s, ts, t - 1),
-        pr_inv(al, a, a_s, kind, pend, None, ts[t - 1], in_dim), pr_stack(kind, pend, Seq::<(usize, usize)>::empty()),
-    ensures pr_outer(al, a0, a, ts, t)
-{
-    reveal(pr_inv); reveal(pr_stack); reveal(pr_outer); reveal(terminals_ok);
-    let tt = ts[t - 1];
-    assert forall|n: usize| !pend.contains(n) by {
-        if pend.contains(n) { let j = choose|j: int| 0 <= j < Seq::<(usize, usize)>::empty().len() && (#[trigger] Seq::<(usize, usize)>::empty()[j]).1 == n; }
-    }
-    assert forall|j: int| t <= j < ts.len() implies a.dom().contains(#[trigger] ts[j]) && a[ts[j]] == a0[ts[j]] by {
-        assert(a_s.dom().contains(ts[j]) && a_s[ts[j]] == a0[ts[j]]);
-        assert(ts[j] != tt);
-        assert(a0[ts[j]].isleaf);
-    }
-    assert forall|i: usize| a.dom().contains(i) && #[trigger] a[i].isleaf implies
-        (a0.dom().contains(i) && a0[i].isleaf && a[i] == a0[i] && (forall|j: int| 0 <= j < t && j < ts.len() ==> ts[j] != i))
-        || (exists|p: usize| al.dom().contains(p) && (#[trigger] al[p]).isleaf && a[i].value.aff.mat.nrows() == al[p].value.aff.mat.nrows()) by {
-        if kind.dom().contains(i) {
-            assert(!pend.contains(i));
-            assert(al.dom().contains(kind[i]) && al[kind[i]].isleaf);
-        } else {
-            assert(a_s.dom().contains(i) && i != tt);
-            assert(a_s[i].isleaf && a[i] == a_s[i]);
-            if a0.dom().contains(i) && a0[i].isleaf && a_s[i] == a0[i] && (forall|j: int| 0 <= j < t - 1 && j < ts.len() ==> ts[j] != i) {
-                assert forall|j: int| 0 <= j < t && j < ts.len() implies ts[j] != i by {}
-            }
-        }
-    }
-}
-
-// shape invariant from the bookkeeping
-pub proof fn lemma_pr_shape<const K: usize>(al: AArena<K>, a: AArena<K>, a_s: AArena<K>, kind: Map<usize, usize>, pend: Set<usize>, cur: Option<usize>, t: usize, in_dim: usize, dl: usize)
-    requires pr_inv(al, a, a_s, kind, pend, cur, t, in_dim), aff_shape_ok(a_s, in_dim), aff_shape_ok(al, dl)
-    ensures aff_shape_ok(a, in_dim)
-{
-    reveal(pr_inv);
-    assert forall|i: usize| #![trigger a[i].value] a.dom().contains(i) implies a[i].value.aff.ok() && a[i].value.aff.mat.ncols() == in_dim
-        && (!a[i].isleaf ==> 1 <= a[i].value.aff.mat.nrows() < 16 && (1usize << (a[i].value.aff.mat.nrows() as usize)) <= K) by {
-        if kind.dom().contains(i) { assert(al.dom().contains(kind[i])); }
-        else { assert(a_s.dom().contains(i) && i != t); }
-    }
-}
-
-// counting the children of a node when one slot changes
-pub proof fn lemma_count_set<const K: usize>(ch0: [Option<usize>; K], ch1: [Option<usize>; K], l: int, lo: int)
-    requires 0 <= lo <= K, 0 <= l < K, ch0[l].is_none(), ch1[l].is_some(), forall|k: int| 0 <= k < K && k != l ==> ch1[k] == ch0[k]
-    ensures count_some_from(ch1, lo) == count_some_from(ch0, lo) + (if lo <= l { 1int } else { 0int })
-    decreases K - lo
-{
-    if lo < K { lemma_count_set(ch0, ch1, l, lo + 1); }
-}
-
+//@include prelude/pruned_spec.rs
 
 // rule I8 + the facts compose needs about the list: all terminals, each once, each feeding the left operand
 pub fn leaves_for<const K: usize>(t: &Tree<AffContent, K>, Ghost(dl): Ghost<usize>) -> (r: Vec<usize>)
